@@ -2,7 +2,7 @@
 import ast
 
 from ..pymodel import AnalysisError, FuncInfo, parent
-from ..astutil import (expand_names, src, is_name, is_const, const_num, call_name, walk_no_nested, strip_docstring,
+from ..astutil import (positive_form, expand_names, src, is_name, is_const, const_num, call_name, walk_no_nested, strip_docstring,
                        compare_atoms, enclosing_stmt, calls_in, names_in, assignments_to, norm_compare,
                        orient, literal_tuple)
 from ..cfg import cfg_of, ENTRY, EXIT, RAISE
@@ -50,8 +50,7 @@ def best_update_rules(ctx, rid, fn, loop, all_flag, cand, best_name):
         op = None
         guard_none = False
         for t, pol in tests:
-            if not pol:
-                continue
+            t = positive_form(t, pol)
             for c in ast.walk(t):
                 if isinstance(c, ast.Compare) and len(c.ops) == 1:
                     o = orient(norm_compare(c), cand)
@@ -77,6 +76,15 @@ def best_update_rules(ctx, rid, fn, loop, all_flag, cand, best_name):
                  "incumbent None is guarded" if guard_none else
                  "comparison with %s[0] is not guarded against the initial None incumbent" % best_name)
     return n
+
+
+def incumbent_name(loop, cand):
+    """Name of the incumbent pair: assigned `(cand, x)` inside the enumeration loop."""
+    for st in ast.walk(loop):
+        if isinstance(st, ast.Assign) and len(st.targets) == 1 and isinstance(st.targets[0], ast.Name) and \
+                isinstance(st.value, ast.Tuple) and len(st.value.elts) == 2 and src(st.value.elts[0]) == cand:
+            return st.targets[0].id
+    return None
 
 
 def rules(ctx):
@@ -125,7 +133,8 @@ def rules(ctx):
     loop = enclosing_stmt(pc)
     if not isinstance(loop, ast.For):
         raise AnalysisError("_solve_bruteforce: product is not the iterator of a for loop")
-    dom = expand_names(sb.node, pc.args[0]) if pc.args else None
+    from ..astutil import canon as _canon
+    dom = _canon(expand_names(sb.node, pc.args[0])) if pc.args else None
     okd = isinstance(dom, ast.IfExp) and src(dom.test) == spinp and \
         set(literal_tuple(dom.body) or ()) == {1, -1} and len(literal_tuple(dom.body) or ()) == 2 and \
         set(literal_tuple(dom.orelse) or ()) == {0, 1} and len(literal_tuple(dom.orelse) or ()) == 2
@@ -206,7 +215,17 @@ def rules(ctx):
 
     # ---------------------------------------------------------------- R09.3
     vcalls = [enclosing_stmt(c) for c in calls_in(loop) if is_name(c.func, valuep)]
-    updates = [n for n in ast.walk(loop) if isinstance(n, ast.Assign) and any(is_name(t, 'best') for t in n.targets)]
+    cand = None
+    for v in vcalls:
+        if isinstance(v, ast.Assign) and isinstance(v.targets[0], ast.Name):
+            cand = v.targets[0].id
+    if cand is None:
+        raise AnalysisError("_solve_bruteforce: candidate value variable (v = value(x, D)) not found")
+    BEST = incumbent_name(loop, cand)
+    if BEST is None:
+        ctx.inst('R09.4', sb, loop, False, "no incumbent is updated with (value, assignment) inside the enumeration loop")
+        BEST = 'best'
+    updates = [n for n in ast.walk(loop) if isinstance(n, ast.Assign) and any(is_name(t, BEST) for t in n.targets)]
     okf = bool(vcalls) and bool(updates)
     for n in vcalls + updates:
         facts = []
@@ -224,13 +243,7 @@ def rules(ctx):
              "objective is not computed as value(x, D)")
 
     # ---------------------------------------------------------------- R09.4
-    cand = None
-    for v in vcalls:
-        if isinstance(v, ast.Assign) and isinstance(v.targets[0], ast.Name):
-            cand = v.targets[0].id
-    if cand is None:
-        raise AnalysisError("_solve_bruteforce: candidate value variable not found")
-    n_up = best_update_rules(ctx, 'R09.4', sb, loop, allp, cand, 'best')
+    n_up = best_update_rules(ctx, 'R09.4', sb, loop, allp, cand, BEST)
     if n_up < 2:
         ctx.inst('R09.4', sb, 'best updates', False, "fewer than two best-updates (single / all-solutions) found")
     # collection keyed by the value, read at the final best value
@@ -244,13 +257,13 @@ def rules(ctx):
         for s_ in n.body:
             if isinstance(s_, ast.Assign) and isinstance(s_.value, ast.Tuple) and len(s_.value.elts) == 2:
                 e0, e1 = s_.value.elts
-                if src(e0) == 'best[0]' and isinstance(e1, ast.Subscript) and src(e1.slice) == 'best[0]':
+                if src(e0) == '%s[0]' % BEST and isinstance(e1, ast.Subscript) and src(e1.slice) == '%s[0]' % BEST:
                     okfin = True
     ctx.inst('R09.4', sb, fin[0] if fin else 'final selection', okfin,
              "all-solutions result is the collection stored under the final best value" if okfin else
              "the all-solutions result is not read at the final best value")
     # initial incumbent is None (no-valid-assignment => objective None)
-    inits = [v for s_, v in assignments_to(sb.node, 'best') if isinstance(v, ast.Tuple) and not any(x is s_ for x in ast.walk(loop))
+    inits = [v for s_, v in assignments_to(sb.node, BEST) if isinstance(v, ast.Tuple) and not any(x is s_ for x in ast.walk(loop))
              and not any(x is s_ for n in fin for x in ast.walk(n))]
     oki = bool(inits) and all(is_const(v.elts[0], None) for v in inits)
     ctx.inst('R09.4', sb, 'best = None, {}', oki, "no valid assignment => objective None" if oki else
@@ -321,9 +334,14 @@ def rules(ctx):
     js = P.func('JobSequencing.solve_bruteforce')
     loops = [n for n in walk_no_nested(strip_docstring(js.node.body)) if isinstance(n, ast.For)]
     if loops:
-        n_up = best_update_rules(ctx, 'R09.7', js, loops[0], js.params[1], 'obj', 'best')
+        jcand, jbest = None, None
+        for st in ast.walk(loops[0]):
+            if isinstance(st, ast.Assign) and len(st.targets) == 1 and isinstance(st.targets[0], ast.Name) and \
+                    isinstance(st.value, ast.Tuple) and len(st.value.elts) == 2 and isinstance(st.value.elts[0], ast.Name):
+                jbest, jcand = st.targets[0].id, st.value.elts[0].id
+        n_up = best_update_rules(ctx, 'R09.7', js, loops[0], js.params[1], jcand or 'obj', jbest or 'best')
         gj = cfg_of(js.node)
-        ups = [n for n in ast.walk(loops[0]) if isinstance(n, ast.Assign) and any(is_name(t, 'best') for t in n.targets)]
+        ups = [n for n in ast.walk(loops[0]) if isinstance(n, ast.Assign) and any(is_name(t, jbest or 'best') for t in n.targets)]
         okf = bool(ups)
         for u in ups:
             facts = []
